@@ -191,12 +191,11 @@ def cleanLine (ln : Str) : Str := strip (stripChar '\n' ln)
 
 def isComment (l : Str) : Bool := startsWith ['#'] l
 
-/-- The lines visited by a loop `for line in file_obj: …; if line_no == last: break` started after the title line
-`first`: the `last - first` lines after the title, or everything up to the end of the file when `last ≤ first`
-(the test `line_no == last` is then never true). -/
+/-- The lines visited by the loops of `inspect_data_section` and of the normal engine's `items()`, started after the title
+line `first`: `if line_no > last: break` at the top and `if line_no == last: break` at the bottom leave exactly the
+`last - first` lines after the title (none for an empty section, `last ≤ first`). -/
 def bodyLines (lines : List Str) (first last : Nat) : List Str :=
-  let rest := lines.drop (first + 1)
-  if first < last then rest.take (last - first) else rest
+  (lines.drop (first + 1)).take (last - first)
 
 /-! ## `inspect_data_section` -/
 
@@ -438,5 +437,51 @@ def readData (o : DataOpts) (lines : List Str) (first last : Nat) (st : Steer) (
     | some cols => .ok (finish .numpy cols)
     | none => (normalEngine ft sb dlm nCols lines first last).map (finish .normal)
   | .normal => (normalEngine ft sb dlm nCols lines first last).map (finish .normal)
+
+/-! ### the plain decimal grammar `[+-]?(\d+\.?\d*|\.\d+)([eE][+-]?\d+)?` (ASCII digits) as an automaton -/
+
+inductive PState
+  | start | sign | int | dot0 | intDot | frac | exp | expSign | expDigits
+deriving DecidableEq, Repr
+
+inductive CharClass | digit | dot | e | sg | other
+deriving DecidableEq, Repr
+
+def charClass (c : Char) : CharClass :=
+  if isDigit c then .digit else if c == '.' then .dot else if c == 'e' || c == 'E' then .e
+  else if c == '+' || c == '-' then .sg else .other
+
+def pStep : PState → CharClass → Option PState
+  | .start, .sg => some .sign
+  | .start, .digit => some .int
+  | .start, .dot => some .dot0
+  | .sign, .digit => some .int
+  | .sign, .dot => some .dot0
+  | .int, .digit => some .int
+  | .int, .dot => some .intDot
+  | .int, .e => some .exp
+  | .dot0, .digit => some .frac
+  | .intDot, .digit => some .frac
+  | .intDot, .e => some .exp
+  | .frac, .digit => some .frac
+  | .frac, .e => some .exp
+  | .exp, .sg => some .expSign
+  | .exp, .digit => some .expDigits
+  | .expSign, .digit => some .expDigits
+  | .expDigits, .digit => some .expDigits
+  | _, _ => none
+
+def pAccept : PState → Bool
+  | .int | .intDot | .frac | .expDigits => true
+  | _ => false
+
+def pRun : PState → Str → Bool
+  | q, [] => pAccept q
+  | q, c :: cs => match pStep q (charClass c) with
+    | some q' => pRun q' cs
+    | none => false
+
+/-- `numeric_literal_regex.fullmatch(t)` -/
+def isPlainDecimal (t : Str) : Bool := pRun .start t
 
 end Lasio.Dt
